@@ -80,7 +80,7 @@ def run_sel(case):
             ind.set("rank", r)
     np.random.seed(case["seed"])
     with Recorder(int_values=case.get("int_values")) as rec:
-        P = DES(case["variant"])._do(None, pop, n_pop, case["n_parents"])
+        P = DES(case["variant"]).do(None, pop, n_pop, case["n_parents"], to_pop=False)
     ranks_after = [ind.get("rank") for ind in pop]
     return {"P": np.asarray(P).tolist(), "events": enc_events(rec.events), "ranks_after": ranks_after}
 
